@@ -254,13 +254,16 @@ static void make_pool(Pool& p) {
 static Outcome run_transition(std::vector<int> const& hist, int op, MPool const& before, MPool const& after) {
 	Outcome out;
 	W.reset();
+#ifdef HM_FANCY
+	fancy::g = fancy::Stats{};
+#endif
 	{
 		Pool p; make_pool(p);
 		for(int h : hist) { g_ops[static_cast<std::size_t>(h)].real(p); }
 		if(!W.errs.empty()) { out.ok = false; out.oracle = "registry-during-replay:" + W.errs[0]; return out; }
 		auto const& od = g_ops[static_cast<std::size_t>(op)];
 		long c_copy = W.ncopy, c_move = W.nmove, c_as = W.nassign, c_mas = W.nmassign, c_val = W.nvalue, c_alloc = W.nalloc;
-		auto const* data_a = p.a->data_elements();
+		auto const* data_a = rawp(p.a->data_elements());
 		long f0 = W.fault_count;
 		od.real(p);
 		out.nfault = W.fault_count - f0;
@@ -272,7 +275,7 @@ static Outcome run_transition(std::vector<int> const& hist, int op, MPool const&
 		// provenance: the block a slot owns was produced by the allocator the slot reports
 		for(auto* sl : {p.a.get(), p.b.get()}) {
 			if(sl->num_elements() == 0) { continue; }
-			auto it = W.blocks.find(sl->data_elements());
+			auto it = W.blocks.find(rawp(sl->data_elements()));
 			if(it == W.blocks.end()) { fail("storage-not-from-allocator", "data_elements() is not a live block of the ledger"); }
 			else if(it->second.id != sl->get_allocator().id) { fail("block-provenance", "slot reports allocator #" + std::to_string(sl->get_allocator().id) + " but owns a block produced by #" + std::to_string(it->second.id)); }
 		}
@@ -282,14 +285,17 @@ static Outcome run_transition(std::vector<int> const& hist, int op, MPool const&
 		}
 		if((od.flags & F_NEVER_ALLOC) && W.nalloc != c_alloc) { fail("allocated", "operation that needs no new storage allocated"); }
 		if((od.flags & F_SAME_EXT_NO_ALLOC) && before.a.count() != 0 && before.a.ext == after.a.ext && before.a.count() == after.a.count() && before.a.alloc == after.a.alloc && W.nalloc != c_alloc) { fail("same-extent-assignment-allocated", ""); }
-		if((od.flags & F_SELF) && before.a.count() != 0 && p.a->data_elements() != data_a) { fail("storage-moved", "data_elements() changed"); }
-		if((od.flags & F_KEEP_DATA_IF_SAME) && before.a.count() != 0 && before.a.ext == after.a.ext && p.a->data_elements() != data_a) { fail("reextent-to-same-extents-moved-storage", ""); }
+		if((od.flags & F_SELF) && before.a.count() != 0 && rawp(p.a->data_elements()) != data_a) { fail("storage-moved", "data_elements() changed"); }
+		if((od.flags & F_KEEP_DATA_IF_SAME) && before.a.count() != 0 && before.a.ext == after.a.ext && rawp(p.a->data_elements()) != data_a) { fail("reextent-to-same-extents-moved-storage", ""); }
 		// pairwise disjoint storage
-		auto rng = [](auto const& arr) { return std::make_pair(reinterpret_cast<char const*>(arr.data_elements()), reinterpret_cast<char const*>(arr.data_elements() + arr.num_elements())); };
+		auto rng = [](auto const& arr) { return std::make_pair(reinterpret_cast<char const*>(rawp(arr.data_elements())), reinterpret_cast<char const*>(rawp(arr.data_elements()) + arr.num_elements())); };
 		auto ov = [](std::pair<char const*, char const*> x, std::pair<char const*, char const*> y) { return x.first != x.second && y.first != y.second && x.first < y.second && y.first < x.second; };
 		if(ov(rng(*p.a), rng(*p.b)) || ov(rng(*p.a), rng(p.src)) || ov(rng(*p.b), rng(p.src))) { fail("shared-storage", "two arrays of the pool overlap in memory"); }
 		out.strides = strides_of(*p.a) + "/" + strides_of(*p.b);
 	}
+#ifdef HM_FANCY
+	if(out.ok && (fancy::g.oob_deref || fancy::g.null_deref || fancy::g.null_arith)) { out.ok = false; out.oracle = fancy::g.oob_deref ? "fancy-pointer:dereference-outside-storage" : "fancy-pointer:null-pointer-use"; out.detail = fancy::g.first; }
+#endif
 	if(out.ok) {
 		if(!W.errs.empty()) { out.ok = false; out.oracle = "registry-at-destruction:" + W.errs[0]; }
 		else if(!W.blocks.empty()) { out.ok = false; out.oracle = "leak-block"; out.detail = std::to_string(W.blocks.size()) + " block(s) outstanding after the pool died"; }
@@ -326,11 +332,11 @@ static Outcome run_fault(std::vector<int> const& hist, int op, long k) {
 			auto n = sl->num_elements();
 			if(n == 0) { continue; }
 			++owned_blocks; expected_alive += n;
-			auto it = W.blocks.find(sl->data_elements());
+			auto it = W.blocks.find(rawp(sl->data_elements()));
 			if(it == W.blocks.end()) { fail("invalid-after:storage", "a slot reports elements but owns no live block"); continue; }
 			if(static_cast<long>(it->second.n) != n) { fail("invalid-after:extents-vs-block", "extents say " + std::to_string(n) + " elements, block has " + std::to_string(it->second.n)); }
 #if HM_ELEM == 0
-			for(idx i = 0; i < n; ++i) { if(!W.alive.count(sl->data_elements() + i)) { fail("invalid-after:dead-element", "element " + std::to_string(i) + " of a slot is not alive"); break; } }
+			for(idx i = 0; i < n; ++i) { if(!W.alive.count(rawp(sl->data_elements()) + i)) { fail("invalid-after:dead-element", "element " + std::to_string(i) + " of a slot is not alive"); break; } }
 #endif
 		}
 		++owned_blocks;  // `known`
@@ -372,7 +378,11 @@ int main(int argc, char** argv) {
 	mc::set_deadline(static_cast<double>(args.geti("deadline", 3000)));
 	init_views(); build_ops(thorough);
 	std::string tag = "D" + std::to_string(D) + "|" + ELEM;
-	std::string cfgid = std::string("histmc D=") + std::to_string(D) + " elem=" + ELEM + (ALLOC_MODE ? std::string(" traits{pocca=") + (Tr::pocca ? "1" : "0") + ",pocma=" + (Tr::pocma ? "1" : "0") + ",pocs=" + (Tr::pocs ? "1" : "0") + ",soccc_fresh=" + (Tr::soccc_fresh ? "1" : "0") + "}" : std::string());
+	std::string cfgid = std::string("histmc D=") + std::to_string(D) + " elem=" + ELEM +
+#ifdef HM_FANCY
+		" pointer=fancy::ptr" +
+#endif
+ (ALLOC_MODE ? std::string(" traits{pocca=") + (Tr::pocca ? "1" : "0") + ",pocma=" + (Tr::pocma ? "1" : "0") + ",pocs=" + (Tr::pocs ? "1" : "0") + ",soccc_fresh=" + (Tr::soccc_fresh ? "1" : "0") + "}" : std::string());
 	if(ALLOC_MODE) { tag += std::string("|ca") + (Tr::pocca ? "1" : "0") + "ma" + (Tr::pocma ? "1" : "0") + "s" + (Tr::pocs ? "1" : "0") + (Tr::soccc_fresh ? "f" : ""); }
 
 	auto model_run = [&](std::vector<int> const& h, MPool& m) { m = MPool{}; m.a.ext.assign(static_cast<std::size_t>(D), 0); m.b.ext = m.a.ext; for(int o : h) { if(!g_ops[static_cast<std::size_t>(o)].model(m)) { return false; } } return true; };
